@@ -99,7 +99,7 @@ Print Assumptions Bridge_C01_fires_iff_with_cache.
 Theorem Bridge_C01_fires_iff_declarative_with_cache : forall sm pidf X ord ko st r cs, wf_state st -> ok_oracle ord ->
   links_wf sm pidf (rule_links r) -> tc_cache_inv tid tcp_tf_builtin sm cs ->
   Forall (fun l => reads_mvar l = false /\ is_action l = false) (rule_links r) ->
-  (rule_fires_c X ord ko pidf st r cs = true <-> Forall (link_holds X st) (rule_links r)).
+  (rule_fires_c X ord ko pidf st r cs = true <-> Forall (link_holds_rt X st) (rule_links r)).
 Proof. exact fires_iff_declarative_with_cache. Qed.
 Print Assumptions Bridge_C01_fires_iff_declarative_with_cache.
 
